@@ -209,3 +209,30 @@ def ig_rules(draw, max_rules=8, max_nt=4, reserved=False, terms=("a", "b")):
     m = min(draw(st.sampled_from([5, 6, 4, 7, 8, 3, 2, 1])), max_rules)
     return draw(st.lists(rule, min_size=m, max_size=m, unique_by=repr))
 
+
+@st.composite
+def ig_rules_skeleton(draw, reserved=False, terms=("a", "b")):
+    """Grammars built around the shape that exercises the combination of consumption alternatives (addrec_bis /
+    addrec_ter): an index is pushed, the variable is duplicated, and both copies consume that index through
+    different rules; 1-4 unconstrained rules are added and the list is shuffled.  Up to five non-terminals."""
+    pool = (NT_RESERVED if reserved else NT) + ["E"]
+    nts = pool[:draw(st.sampled_from([5, 4, 5, 3]))]
+    nt = st.sampled_from(nts)
+    idx = st.sampled_from(IDX[:draw(st.sampled_from([1, 2]))])
+    i = draw(idx)
+    y, p, q = draw(nt), draw(nt), draw(nt)
+    core = [["prod", draw(nt), y, i], ["dup", y, p, q], ["cons", i, p, draw(nt)], ["cons", i, q, draw(nt)]]
+    rule = st.one_of(
+        st.tuples(st.just("end"), nt, st.sampled_from(list(terms))).map(list),
+        st.tuples(st.just("prod"), nt, nt, idx).map(list),
+        st.tuples(st.just("cons"), idx, nt, nt).map(list),
+        st.tuples(st.just("dup"), nt, nt, nt).map(list),
+        st.tuples(st.just("end"), nt, st.sampled_from(list(terms))).map(list),
+    )
+    extra = draw(st.lists(rule, min_size=1, max_size=4, unique_by=repr))
+    rules = []
+    for r in core + extra:
+        if r not in rules:
+            rules.append(r)
+    return draw(st.permutations(rules))
+
